@@ -21,6 +21,8 @@ enum Op {
     UnbindBound(usize),
     UnbindUnknown(u8),
     ConnectIn(usize),
+    /// a connection that is accepted and then says nothing, ever (kept open)
+    SilentIn(usize),
     Exchange(usize),
     /// a second socket tries to bind an endpoint this socket is listening on
     OtherSocketBind(usize),
@@ -55,6 +57,7 @@ fn bookkeeping(ctx: &mut Ctx) {
             9 | 15 => Op::UnbindUnknown(ctx.plan(10) as u8),
             10 | 11 => Op::ConnectIn(ctx.plan(8) as usize),
             14 => Op::OtherSocketBind(ctx.plan(8) as usize),
+            12 => Op::SilentIn(ctx.plan(8) as usize),
             _ => Op::Exchange(ctx.plan(8) as usize),
         };
         ops.push(o);
@@ -69,6 +72,7 @@ fn bookkeeping(ctx: &mut Ctx) {
         // the reference model: the set of bound endpoints (their text form), in bind order
         let mut model: Vec<String> = Vec::new();
         let mut gone: Vec<String> = Vec::new(); // endpoints unbound earlier
+        let mut silent: Vec<RawPeer> = Vec::new(); // accepted connections that never say anything
         let mut conns: Vec<(RawPeer, String, u16)> = Vec::new(); // (peer, endpoint it came in through, id)
         let mut next_id = 0u16;
         macro_rules! bail {
@@ -235,8 +239,27 @@ fn bookkeeping(ctx: &mut Ctx) {
                         Ok(mut p) => {
                             let _ = p.hello(peer_type, None).await;
                             rt::task::idle().await;
+                            // "accepts any number of connections": the endpoint has answered this one
+                            // with its own greeting and READY, whoever else is connected to it
+                            if p.inbound().items.len() < 2 {
+                                bail!("bound_endpoint_does_not_answer", "op {n}: a connection to {text} (in the bind set) was opened and completed its side of the handshake, but the socket never sent its greeting and READY ({} silent connections are open)", silent.len());
+                            }
                             conns.push((p, text, next_id));
                             next_id += 1;
+                        }
+                        Err(e) => bail!("bound_endpoint_refuses", "op {n}: {text} is in the bind set but refuses a connection: {e}"),
+                    }
+                }
+                Op::SilentIn(i) => {
+                    if model.is_empty() {
+                        continue;
+                    }
+                    let text = model[*i % model.len()].clone();
+                    match RawPeer::connect(&text) {
+                        Ok(p) => {
+                            rt::count("probe_silent_connection_opened");
+                            silent.push(p);
+                            rt::task::idle().await;
                         }
                         Err(e) => bail!("bound_endpoint_refuses", "op {n}: {text} is in the bind set but refuses a connection: {e}"),
                     }
@@ -283,6 +306,7 @@ fn bookkeeping(ctx: &mut Ctx) {
         drop(sock);
         drop(other);
         drop(conns);
+        drop(silent);
     });
     let end = ctx.sim.run(600_000);
     if end == rt::RunEnd::Budget {
